@@ -3,6 +3,8 @@
 # property Cxx; the check of Cxx must report a VIOLATION on it (CxxT-<what>.patch: the thorough tier must). Applies to /repo's working tree and reverts.
 cd "$(dirname "$0")/.." || exit 2
 fail=0
+# 0. the verifier itself: must-pass / must-fail corpus of small functions (see tools/engine_selftest.sh)
+if [ -z "${1:-}" ]; then tools/engine_selftest.sh || { echo "ENGINE SELFTEST FAILED"; fail=1; }; fi
 for p in selftest/mutants/${1:-}*.patch; do
   prop=$(basename "$p" | cut -d- -f1)
   tier=quick
